@@ -1,7 +1,7 @@
 from props import sched_common
 
-THEOREMS = ["Dispenso.Sched." + t for t in ['C47_fq_never_begins_inline', 'C47_fq_blocks_inline_decisions', 'C47_inline0_needs_no_threads', 'C47_fq_cleared_only_without_threads', 'C47_fq_cleared_top']]
-# (flavour, scenarios in the quick tier): 0 mixed, 1 without resize, 2 resize-heavy, 3 overloaded pool + chains
+THEOREMS = ["Dispenso.Sched." + t for t in ['C47_fq_never_begins_inline', 'C47_fq_blocks_inline_decisions', 'C47_inline0_needs_no_threads', 'C47_zeroPath_only_after_fq_cleared', 'C47_fq_cleared_only_without_threads', 'C47_fq_cleared_top']]
+# (flavour, scenarios in the quick tier): 0 mixed, 1 without resize, 2 resize-heavy (incl. resize(0) held in join while a ring-routed bulk arrives), 3 overloaded pool + chains, 4 workers parked between submissions, 5 exception-heavy
 FLAVOURS = [(1, 250), (0, 100), (3, 50)]
 
 
